@@ -30,6 +30,8 @@ func runC12(w *World, r *Report) {
 	ruleDumpSkip(w, r)
 	ruleEvGate(w, r)
 	ruleEvRemap(w, r)
+	// event insertion lengthens the program: turning events on must not push it past the 16-bit limit unnoticed
+	ruleGrow(w, r)
 }
 
 // ---- R-EVFRESH ----------------------------------------------------------------
